@@ -172,6 +172,9 @@ def run(ck: Check) -> None:
         if not res["impl"].startswith(os.environ.get("VERIF_REPO", "/repo")):
             raise Broken("worker imported bitproto from " + res["impl"])
         for n, r in enumerate(res["runs"]):
+            if r.get("timeout"):
+                ck.broken(Broken("a CLI run did not finish within 10 minutes", str(jobs[index.index((si, k))]["runs"][n]["args"])))
+                continue
             observed[si][k + n] = r
 
     shards = pyside.Shards(ck, "c17", per_shard=4)
